@@ -154,7 +154,7 @@ def run(ctx, args):
                     eff = [(k, v) for k, v in xq.effective_nsmap(c, None) if k in ("", "xml")]
                     terms.append("run_locpath_eval T%d %s %s %s" % (ti, xq.coq_nsmap(eff), xq.coq_pos(pos), xq.coq_pos(cp)))
                     meta.append(("eval", dict(small, ctx=list(cp)), [0, 1, len(pos)] + list(pos)))
-    res = ctx.coq_eval("c14_cases", xq.REQ + "\n".join(preamble) + "\n", terms, chunk=250)
+    res = xq.coq_eval_retry(ctx, "c14_cases", xq.REQ + "\n".join(preamble) + "\n", terms, chunk=250)
     for (kind, small, want), got in zip(meta, res):
         ctx.count(1, "model:" + kind)
         if got is None:
